@@ -622,6 +622,10 @@ type vfC18Key struct {
 
 var vfC18Cache = map[vfC18Key]vfC18Built{}
 
+// vfC18ApplyHistory, when set, configures the server through a history of setter
+// calls instead of one call per cap (space "setter-histories").
+var vfC18ApplyHistory func(h *HttpServer)
+
 var vfC18Tok [2]string
 
 func vfC18Run(x *venum.X, caps vfC18Caps, d vfC18Delivery, desc vfC18Desc, enc vfC18Enc, declared bool) {
@@ -650,7 +654,11 @@ func vfC18Run(x *venum.X, caps vfC18Caps, d vfC18Delivery, desc vfC18Desc, enc v
 		x.Outcome("not-constructible")
 		return
 	}
-	caps.apply(h)
+	if vfC18ApplyHistory != nil {
+		vfC18ApplyHistory(h) // a sequence of setter calls whose final values are `caps`
+	} else {
+		caps.apply(h)
+	}
 	vfC18Seen = nil
 	want := vfC18Expect(caps, enc.coding, int64(len(built.raw)), int64(len(built.decoded)), built.window)
 	x.Note("caps B=%d A=%d M=%d; %s via %s (declared length %v): raw %d B, decoded %d B, window %d; statement allows success=%v refusal=%s",
@@ -690,6 +698,9 @@ func vfC18Run(x *venum.X, caps vfC18Caps, d vfC18Delivery, desc vfC18Desc, enc v
 	where := "route"
 	if d.direct {
 		where = "direct"
+	}
+	if vfC18ApplyHistory != nil {
+		where += "-after-reconfiguration"
 	}
 	switch {
 	case accepted && len(want.must) > 0:
@@ -804,6 +815,60 @@ func TestVerif_C18(t *testing.T) {
 		enc := encs[x.Choose(len(encs), "encoding")]
 		caps := smallCaps[x.Choose(len(smallCaps), "caps")]
 		vfC18Run(x, caps, dels[0], desc, enc, true)
+	})
+
+	// ---- space 2c: configuration histories -------------------------------------------
+	// The caps in force are the CURRENT values of the three setters (the derived
+	// decoded cap is 16x the current body cap), however the server got there: every
+	// sequence of up to 2 (quick) / 3 (thorough) setter calls, then the same oracle
+	// as space 1 evaluated on the final values.
+	type capOp struct {
+		name string
+		f    func(h *HttpServer, c *vfC18Caps)
+	}
+	var ops []capOp
+	for _, v := range []int64{0, vfC18N / 2, vfC18N} {
+		v := v
+		ops = append(ops, capOp{fmt.Sprintf("SetMaxBodySize(%d)", v), func(h *HttpServer, c *vfC18Caps) { h.SetMaxBodySize(v); c.B = v }})
+	}
+	for _, v := range []int64{0, vfC18N, 4 * vfC18N} {
+		v := v
+		ops = append(ops, capOp{fmt.Sprintf("SetMaxRequestBytes(%d)", v), func(h *HttpServer, c *vfC18Caps) { h.SetMaxRequestBytes(v); c.A = v }})
+	}
+	for _, v := range []int64{-1, 0, vfC18M, 40000} {
+		v := v
+		ops = append(ops, capOp{fmt.Sprintf("SetMaxDecompressedBodySize(%d)", v), func(h *HttpServer, c *vfC18Caps) { h.SetMaxDecompressedBodySize(v); c.M = v }})
+	}
+	histDescs := vfC18Descs([]int{vfC18N / 2, vfC18N, vfC18M, 8 * vfC18N, 16 * vfC18N, 40000}, 4*16*vfC18N)
+	histEncs := []vfC18Enc{encs[0], encs[2], encs[6]} // identity, zstd one-shot, gzip
+	maxOps := venum.QT(2, 3)
+	venum.Explore(t, venum.Cfg{Name: "setter-histories", Shardable: true}, func(x *venum.X) {
+		desc := histDescs[x.Choose(len(histDescs), "payload")]
+		enc := histEncs[x.Choose(len(histEncs), "encoding")]
+		var seq []capOp
+		for i := 0; i < maxOps; i++ {
+			c := x.Choose(len(ops)+1, fmt.Sprintf("setter[%d]", i))
+			if c == len(ops) {
+				break
+			}
+			seq = append(seq, ops[c])
+		}
+		// final values, starting from the constructor defaults (64 MiB body cap, others unset)
+		final := vfC18Caps{B: defaultMaxBodySize}
+		var names []string
+		for _, o := range seq {
+			o.f(NewHttpServer(NewServer()), &final) // only to compute `final`; the real server is configured below
+			names = append(names, o.name)
+		}
+		x.Note("history: %v -> final caps %+v", names, final)
+		vfC18ApplyHistory = func(h *HttpServer) {
+			var scratch vfC18Caps
+			for _, o := range seq {
+				o.f(h, &scratch)
+			}
+		}
+		defer func() { vfC18ApplyHistory = nil }()
+		vfC18Run(x, final, dels[0], desc, enc, true)
 	})
 
 	// ---- space 2b: removing a cap never turns an accepted body into a refused one --------
